@@ -46,7 +46,7 @@ def gen_extras(rng, name, ast):
             n1 = ast['n1']
             bound = n1 * (mr * mr if name == 'minsqcost' else mr)
             if r < 0.58:
-                return [9000000, 0]
+                return [25000000 if name == 'mincostlsb' else 9000000, 0]
             for m in (1000000, 100000):
                 if bound * m + 64 * n1 < 5 * 10**7:
                     return [m] if (name != 'mincostlsb' and rng.random() < 0.5) else [m, rng.choice([0, 1, 3])]
@@ -123,6 +123,8 @@ def lp_run(text, argv, getters=('get_results',), faults=None, time_limit=None, c
             out['snaps'] = rec.solves
             out['nonintegral'] = rec.nonintegral
         if out['exc'] is None:
+            # one run in three: another Solver object is built in the same process before the results are read
+            other = impl.decoy_solver(len(text) + len(argv)) if (len(text) + len(argv)) % 3 == 1 else None  # noqa: F841
             for g in getters:
                 try:
                     out['texts'].append(['ok', impl.canon_results(getattr(s, g)())])
